@@ -1,4 +1,5 @@
 import DateutilVerif.Properties.C17
+import DateutilVerif.Properties.C17Malformed   -- the translated `_parse_rfc` and the malformed classes
 import DateutilVerif.Properties.TzObjGen   -- translator tie (wt-iso): obligations about the re-translated tzical functions
 #print axioms C17.cache_transparent
 #print axioms C17.cache_step
@@ -19,3 +20,19 @@ import DateutilVerif.Properties.TzObjGen   -- translator tie (wt-iso): obligatio
 #print axioms C17.gen_eq_model_dst
 #print axioms C17.cache_step_gen
 #print axioms C17.gen_eq_model_tzname
+#print axioms C17.gen_eq_model_parse_rfc_line
+#print axioms C17.gen_unfold_terminates
+#print axioms C17.gen_eq_model_parse_rfc
+#print axioms C17.parse_rfc_errors_ValueError
+#print axioms C17.malformed_no_colon
+#print axioms C17.malformed_zone_end
+#print axioms C17.malformed_component_end
+#print axioms C17.malformed_mismatched_end
+#print axioms C17.malformed_unknown_component
+#print axioms C17.malformed_unknown_property_in_component
+#print axioms C17.malformed_unknown_property_in_zone
+#print axioms C17.malformed_property_parameter
+#print axioms C17.malformed_bad_rrule
+#print axioms C17.zone_state_does_not_leak
+#print axioms C17.component_state_does_not_leak
+#print axioms C17.component_without_dtstart
